@@ -3,6 +3,8 @@ import LWV.Spec.Ieee
 import LWV.Model.Epoch
 import LWV.Model.Describe
 import LWV.Spec.Security
+import LWV.Model.Tags
+import LWV.Spec.TagsRef
 /-
 Line-protocol driver: runs the executable Model (and Spec) on the same operation lines the C
 harness runs.  Compiled as `lwdriver` (nothing below imports Mathlib).
@@ -61,6 +63,61 @@ def specDescTable (r : Model.Routine) : List (Nat × Name) :=
     | .pairwiseCiphers => Spec.descPairwise | .authKeySuites => Spec.descAkm
   t.map fun (m, d) => (Nat.log2 ((Gen.macros.lookup m).getD 0).toNat, d)
 
+def showElems (es : List Spec.ElemAt) : String :=
+  "ok" ++ String.join (es.map fun e => s!" {e.off}:{e.num.toNat}:{e.len}")
+
+def showOutcome {α} (f : α → String) : Outcome α → String
+  | .ok a => f a
+  | .err c => s!"err {c}"
+  | .fault x => s!"FAULT {repr x}"
+
+/-- parse one op token of a `tg` line -/
+def parseTagOp (s : String) : Option Model.TagOp :=
+  match s.splitOn ":" with
+  | ["a", n, h] => do let n ← n.toNat?; let d ← ofHex h; some (.add n d)
+  | ["r", n] => do let n ← n.toNat?; some (.remove n)
+  | ["s", h] => do let d ← ofHex h; some (.setSsid d)
+  | ["c", n] => do let n ← n.toNat?; some (.setChannel (UInt8.ofNat n))
+  | ["k", n] => do let n ← n.toNat?; some (.check n)
+  | _ => none
+
+def showTagState (ret : Int) (t : Model.Tags) : String := s!"{ret}/{t.length}/{toHex t.params}"
+
+def runTagOps (ops : List Model.TagOp) : String := Id.run do
+  let mut t := Model.Tags.empty
+  let mut outs : List String := []
+  for op in ops do
+    match Model.stepTag t op with
+    | .ok (r, t') => t := t'; outs := outs ++ [showTagState r t']
+    | .err c => outs := outs ++ [s!"err {c}"]
+    | .fault f => outs := outs ++ [s!"FAULT {repr f}"]
+  return if outs.isEmpty then "nop" else " | ".intercalate outs
+
+def toEditOp : Model.TagOp → Spec.EditOp
+  | .add n d => .add n d
+  | .remove n => .remove n
+  | .setSsid d => .set 0 d
+  | .setChannel c => .set 3 [c]
+  | .check n => .check n
+
+/-- `tgchk ops @ ret/len/hex | ...`: evaluate the Spec relation on the implementation's states -/
+def tagCheck (ops : List Model.TagOp) (states : List String) : String := Id.run do
+  let mut before : Bytes := []
+  let mut i := 0
+  for (op, st) in ops.zip states do
+    match st.trimAscii.toString.splitOn "/" with
+    | [r, l, h] =>
+      match r.toInt?, l.toNat?, ofHex h with
+      | some r, some l, some after =>
+        if l != after.length then return s!"fails {i} recorded length differs from the byte count"
+        match Spec.editHolds before (toEditOp op) r after with
+        | some why => return s!"fails {i} {why}"
+        | none => before := after
+      | _, _, _ => return s!"fails {i} unparsable state"
+    | _ => return s!"fails {i} unparsable state {st}"
+    i := i + 1
+  return "holds"
+
 def step (line : String) : String :=
   match line.trimAscii.toString.splitOn " " with
   | ["tagname", v] =>
@@ -87,6 +144,20 @@ def step (line : String) : String :=
     match r.toNat?.bind routineOf, parseNat extra, lo.toNat?, hi.toNat? with
     | some r, some extra, some lo, some hi => descRange r extra lo hi (bits.filterMap String.toNat?)
     | _, _, _, _ => "bad-op"
+  | ["it", h] =>
+    match ofHex h with
+    | some bs =>
+      let sp := if Spec.firstFits bs then showElems (Spec.visible (Spec.parseAt bs)) else "refuse"
+      showOutcome showElems (Model.reported bs) ++ " ;; spec=" ++ sp
+    | none => "bad-op"
+  | ["tg", ops] =>
+    match (ops.splitOn ",").mapM parseTagOp with
+    | some ops => runTagOps ops
+    | none => "bad-op"
+  | "tgchk" :: ops :: "@" :: rest =>
+    match (ops.splitOn ",").mapM parseTagOp with
+    | some ops => tagCheck ops ((" ".intercalate rest).splitOn " | ")
+    | none => "bad-op"
   | ["spec-ieee", kind] =>
     match specKinds.lookup kind with
     | some t => dumpTable t
